@@ -258,6 +258,8 @@ pub fn scalars(tier: Tier, seed: u64) -> Vec<N> {
         two(200) - n(1),
         two(64) - n(1),                 // one full limb of ones
         (two(64) - n(1)) << 64,         // a full limb of ones above a zero limb
+        two(128),                       // every limb boundary: 2^64 (above), 2^128, 2^192
+        two(192),
     ];
     let g = generic(r, seed, 0x5ca1a5, 17);
     v.push(g[0].clone());
